@@ -1,7 +1,557 @@
-//! C04 driver (stub: not built yet).
-use crate::trace::Args;
+//! C04 driver: factor() with thread pools of every size under perturbed schedules.
+//!
+//! One trace line per run (`op:"run"`): the hook events of the run in compact integer form
+//! (`evs`, see `compact`), the value returned, and what the run was (input, selector, threads,
+//! perturbation).  Runs of the same input form one group (`case` = input id) that starts with an
+//! `op:"input"` line carrying the certified prime factors of the input, followed by the
+//! single-threaded baseline runs.  Nothing is judged here: SieveProtoTrace.tla decides.
+//!
+//! Also hosts the machinery shared with the C05 driver (guarded call with a progress watchdog,
+//! event compaction, input generation).
 
-pub fn run(_args: &Args) -> i32 {
-    eprintln!("driver c04 not built yet");
-    2
+use std::collections::HashMap;
+use std::sync::atomic::{AtomicBool, AtomicU64, AtomicUsize, Ordering};
+use std::sync::{mpsc, Arc, Mutex};
+use std::time::{Duration, Instant};
+
+use rand::rngs::StdRng;
+use rand::{Rng, SeedableRng};
+use serde_json::{json, Value};
+
+use yamaquasi::{factor, Algo, Preferences, Verbosity};
+
+use crate::gen::{rng_for, Pool, Uint};
+use crate::trace::*;
+
+// ------------------------------------------------------------------------------------------
+// shared: panics of any thread, guarded call with a watchdog on absence of progress
+// ------------------------------------------------------------------------------------------
+
+static PANICS: Mutex<Vec<(String, String)>> = Mutex::new(Vec::new());
+/// incremented at every sched point and every abort poll: "the run is making progress"
+pub static PROGRESS: AtomicU64 = AtomicU64::new(0);
+
+/// Panic hook that records message and location of panics of *all* threads (rayon re-raises a
+/// worker's panic in the caller without calling the hook again, so a thread-local is not enough).
+pub fn install_global_panic_hook() {
+    std::panic::set_hook(Box::new(|info| {
+        let msg = if let Some(s) = info.payload().downcast_ref::<&str>() {
+            s.to_string()
+        } else if let Some(s) = info.payload().downcast_ref::<String>() {
+            s.clone()
+        } else {
+            "?".to_string()
+        };
+        let loc = info.location().map(|l| format!("{}:{}", l.file(), l.line())).unwrap_or_default();
+        PANICS.lock().unwrap_or_else(|e| e.into_inner()).push((msg, loc));
+    }));
+}
+
+fn take_panic() -> Value {
+    let mut g = PANICS.lock().unwrap_or_else(|e| e.into_inner());
+    let (mut msg, loc) = if g.is_empty() { Default::default() } else { g[0].clone() };
+    let count = g.len();
+    g.clear();
+    msg.truncate(200);
+    let loc = match loc.find("src/") {
+        Some(i) => loc[i..].to_string(),
+        None => loc,
+    };
+    json!({"outcome": "panic", "msg": msg, "loc": loc, "panics": count})
+}
+
+pub enum Outcome {
+    List(Vec<Uint>),
+    Failure,
+    Bad(Value), // panic or hang
+}
+
+pub struct RunOut {
+    pub outcome: Outcome,
+    pub events: Vec<Value>,
+    pub wall_ms: f64,
+    pub hung: bool,
+}
+
+/// Runs factor(n, alg, prefs) in its own thread with the event sink on.  A panic is an outcome; so
+/// is a hang, detected as *no progress event for `idle_s` seconds* (never on wall time alone).
+pub fn run_factor(n: Uint, alg: Algo, mk_prefs: impl FnOnce() -> Preferences + Send + 'static, idle_s: f64) -> RunOut {
+    PANICS.lock().unwrap_or_else(|e| e.into_inner()).clear();
+    let (tx, rx) = mpsc::channel();
+    yamaquasi::verif::start();
+    let t0 = Instant::now();
+    let h = std::thread::Builder::new()
+        .stack_size(64 << 20)
+        .spawn(move || {
+            let prefs = mk_prefs();
+            yamaquasi::verif::ev(|| format!("\"op\":\"call\""));
+            let r = std::panic::catch_unwind(std::panic::AssertUnwindSafe(|| factor(n, alg, &prefs)));
+            yamaquasi::verif::ev(|| format!("\"op\":\"returned\""));
+            let _ = tx.send(r.map_err(|_| ()));
+            drop(prefs);
+        })
+        .expect("spawn");
+    let mut last = PROGRESS.load(Ordering::Relaxed);
+    let mut last_t = Instant::now();
+    let res = loop {
+        match rx.recv_timeout(Duration::from_millis(200)) {
+            Ok(r) => break Some(r),
+            Err(mpsc::RecvTimeoutError::Timeout) => {
+                let p = PROGRESS.load(Ordering::Relaxed);
+                if p != last {
+                    last = p;
+                    last_t = Instant::now();
+                } else if last_t.elapsed().as_secs_f64() > idle_s {
+                    break None;
+                }
+            }
+            Err(_) => break Some(Err(())),
+        }
+    };
+    let wall_ms = t0.elapsed().as_secs_f64() * 1e3;
+    let (outcome, hung) = match res {
+        Some(Ok(Ok(l))) => {
+            let _ = h.join();
+            (Outcome::List(l), false)
+        }
+        Some(Ok(Err(_))) => {
+            let _ = h.join();
+            (Outcome::Failure, false)
+        }
+        Some(Err(())) => {
+            let _ = h.join();
+            (Outcome::Bad(take_panic()), false)
+        }
+        None => (Outcome::Bad(json!({"outcome": "timeout", "idle_s": idle_s})), true),
+    };
+    let raw = yamaquasi::verif::stop();
+    yamaquasi::verif::set_sched(None);
+    let events = raw.iter().filter_map(|s| serde_json::from_str::<Value>(s).ok()).collect();
+    RunOut { outcome, events, wall_ms, hung }
+}
+
+pub fn outcome_fields(o: &Outcome) -> Value {
+    match o {
+        Outcome::List(l) => json!({"ret": "list", "list": l.iter().map(dn).collect::<Vec<_>>(),
+                                   "list_dec": l.iter().map(|x| x.to_string()).collect::<Vec<_>>()}),
+        Outcome::Failure => json!({"ret": "failure", "list": []}),
+        Outcome::Bad(v) => {
+            let mut v = v.clone();
+            v["ret"] = json!("none");
+            v["list"] = json!([]);
+            v
+        }
+    }
+}
+
+pub fn algo_of(s: &str) -> Algo {
+    match s {
+        "Auto" => Algo::Auto,
+        "Siqs" => Algo::Siqs,
+        "Mpqs" => Algo::Mpqs,
+        "Qs" => Algo::Qs,
+        "Ecm" => Algo::Ecm,
+        _ => panic!("selector {}", s),
+    }
+}
+
+pub fn st_code(s: &str) -> i64 {
+    match s {
+        "siqs" => 1,
+        "mpqs" => 2,
+        "qs" => 3,
+        "ecm" => 4,
+        _ => 0,
+    }
+}
+
+fn gi(e: &Value, k: &str) -> i64 {
+    match &e[k] {
+        Value::Bool(b) => *b as i64,
+        v => v.as_i64().unwrap_or(0).min(2_000_000_000),
+    }
+}
+
+/// Compact integer form of a hook event: [code, tid, a, b, c]; None for events of other builders.
+///  1 stage(st, par, fb)  2 stage2(gap0, target0, tasks)  3 task(st)  4 task_skip(st, why 1 gap0 2 done_or_abort)
+///  5 pre_poll(st, site 1 par 2 seq 3 final)  6 poll(idx, res)  7 unit_start(st)  8 unit_end(st)
+///  9 unit_interrupt(st)  10 poly(st)  11 r_len(st, v, held)  12 r_gap(st, v, len)  13 st_gap(st, v)
+/// 14 st_done(st)  15 st_target(st, v)  16 w_req(st)  17 w_rel(st)  18 rel_add(ph 0 enter 1 exit, cycles)
+/// 19 join(st, gap, done)  20 final_len(st, len, fb)  21 finalize(gap, len, fb)  22 sieve_ret(st, why 1 abort 2 none)
+/// 23 loop_exit(st, why)  24 fin_done(st)  25 half(st, dir)  26 call  27 returned  28 lib stage marker (fi_alg qs)
+pub fn compact(e: &Value, out: &mut Vec<Value>) {
+    let tid = gi(e, "tid");
+    let st = st_code(e["st"].as_str().unwrap_or(""));
+    let why = |e: &Value| match e["why"].as_str().unwrap_or("") {
+        "gap0" => 1,
+        "done_or_abort" => 2,
+        "abort" => 1,
+        "none" => 2,
+        _ => 0,
+    };
+    let mut p = |c: i64, a: i64, b: i64, d: i64| out.push(json!([c, tid, a, b, d]));
+    match e["op"].as_str().unwrap_or("") {
+        "stage" => {
+            p(1, st, gi(e, "par"), gi(e, "fb"));
+            p(2, gi(e, "gap"), gi(e, "target"), gi(e, "tasks"));
+        }
+        "task" => p(3, st, 0, 0),
+        "task_skip" => p(4, st, why(e), 0),
+        "pre_poll" => p(5, st, match e["site"].as_str().unwrap_or("") { "par" => 1, "seq" => 2, _ => 3 }, 0),
+        "poll" => p(6, gi(e, "idx"), gi(e, "res"), 0),
+        "unit_start" => p(7, st, 0, 0),
+        "unit_end" => p(8, st, 0, 0),
+        "unit_interrupt" => p(9, st, 0, 0),
+        "poly" => p(10, st, 0, 0),
+        "r_len" => p(11, st, gi(e, "v"), gi(e, "held")),
+        "r_gap" => p(12, st, gi(e, "v"), gi(e, "len")),
+        "st_gap" => p(13, st, gi(e, "v"), 0),
+        "st_done" => p(14, st, 0, 0),
+        "st_target" => p(15, st, gi(e, "v"), 0),
+        "w_req" => p(16, st, 0, 0),
+        "w_rel" => p(17, st, 0, 0),
+        "rel_add" => {
+            let exit = e["ph"].as_str() == Some("exit");
+            p(18, exit as i64, if exit { gi(e, "cycles") } else { 0 }, 0)
+        }
+        "join" => p(19, st, gi(e, "gap"), gi(e, "done")),
+        "final_len" => p(20, st, gi(e, "len"), gi(e, "fb")),
+        "finalize" => p(21, gi(e, "gap"), gi(e, "len"), gi(e, "fb")),
+        "sieve_ret" => p(22, st, why(e), 0),
+        "loop_exit" => p(23, st, why(e), 0),
+        "fin_done" => p(24, st, 0, 0),
+        "half" => p(25, st, (e["dir"].as_str() == Some("bck")) as i64, 0),
+        "call" => p(26, 0, 0, 0),
+        "returned" => p(27, 0, 0, 0),
+        "fi_alg" if e["name"].as_str() == Some("qs") => p(28, 0, 0, 0),
+        _ => {}
+    }
+}
+
+/// An input: product of certified primes.
+pub struct Input {
+    pub id: String,
+    pub n: Uint,
+    pub primes: Vec<Uint>,
+    pub chains: Vec<Value>,
+}
+
+pub fn make_input(pool: &mut Pool, id: &str, bits: &[u32]) -> Input {
+    let mut primes: Vec<Uint> = vec![];
+    for &b in bits {
+        loop {
+            // distinct primes above the trial division range, not 2 (mod 3)-special: any prime will do
+            let p = pool.prime(b);
+            if !primes.contains(&p) {
+                primes.push(p);
+                break;
+            }
+        }
+    }
+    primes.sort();
+    let n = primes.iter().fold(Uint::ONE, |a, b| a * *b);
+    let chains = primes.iter().map(|p| pool.chain_of(p).unwrap()).collect();
+    Input { id: id.to_string(), n, primes, chains }
+}
+
+pub fn input_event(inp: &Input) -> Value {
+    json!({"op": "input", "case": inp.id, "n": dn(&inp.n), "n_dec": inp.n.to_string(), "bits": inp.n.bits(),
+           "primes": inp.primes.iter().map(dn).collect::<Vec<_>>(),
+           "primes_dec": inp.primes.iter().map(|p| p.to_string()).collect::<Vec<_>>(),
+           "chains": inp.chains})
+}
+
+// ------------------------------------------------------------------------------------------
+// schedule perturbation (the set_sched callback)
+// ------------------------------------------------------------------------------------------
+
+/// What a perturbation does at sched points.
+#[derive(Clone, Debug)]
+pub struct Pert {
+    pub kind: String, // none | rand | gapgate | wgate | taskgate
+    pub seed: u64,
+}
+
+struct Gate {
+    // generation counters bumped when a thread passes the given kind of point
+    done_store: AtomicUsize,
+    rlen: AtomicUsize,
+    holds: AtomicUsize,
+}
+
+fn thread_rng(seed: u64) -> StdRng {
+    let t = yamaquasi::verif::tid() as u64;
+    StdRng::seed_from_u64(seed.wrapping_mul(0x9e3779b97f4a7c15) ^ (t << 32) ^ 0x5bd1e995)
+}
+
+thread_local! {
+    static TRNG: std::cell::RefCell<Option<(u64, StdRng)>> = std::cell::RefCell::new(None);
+}
+
+fn with_rng<T>(seed: u64, f: impl FnOnce(&mut StdRng) -> T) -> T {
+    TRNG.with(|c| {
+        let mut c = c.borrow_mut();
+        if c.as_ref().map(|x| x.0) != Some(seed) {
+            *c = Some((seed, thread_rng(seed)));
+        }
+        f(&mut c.as_mut().unwrap().1)
+    })
+}
+
+fn wait_until(cond: impl Fn() -> bool, timeout: Duration) -> bool {
+    let t0 = Instant::now();
+    while !cond() {
+        if t0.elapsed() > timeout {
+            return false; // release on timeout: a gate never creates a hang
+        }
+        std::thread::sleep(Duration::from_micros(50));
+    }
+    true
+}
+
+/// Installs the scheduling callback of a perturbation.  Returns counters (gate hits) for the log.
+pub fn install_pert(p: &Pert) -> Arc<[AtomicUsize; 3]> {
+    let stats: Arc<[AtomicUsize; 3]> = Arc::new([AtomicUsize::new(0), AtomicUsize::new(0), AtomicUsize::new(0)]);
+    let g = Arc::new(Gate { done_store: AtomicUsize::new(0), rlen: AtomicUsize::new(0), holds: AtomicUsize::new(0) });
+    let kind = p.kind.clone();
+    let seed = p.seed;
+    let st = stats.clone();
+    let active = AtomicBool::new(true);
+    yamaquasi::verif::set_sched(Some(Box::new(move |id: &'static str| {
+        PROGRESS.fetch_add(1, Ordering::Relaxed);
+        if !active.load(Ordering::Relaxed) {
+            return;
+        }
+        // bookkeeping used by the gates
+        if id.ends_with(".done.store") {
+            g.done_store.fetch_add(1, Ordering::SeqCst);
+        }
+        if id.ends_with(".rlen.lock") {
+            g.rlen.fetch_add(1, Ordering::SeqCst);
+        }
+        match kind.as_str() {
+            "none" => {}
+            "rand" => {
+                let r: u32 = with_rng(seed, |r| r.gen_range(0..1000));
+                // intensity depends on the seed so that some runs are lightly and some heavily perturbed
+                let heavy = seed % 3 == 0;
+                if r < 150 {
+                    std::thread::yield_now();
+                } else if r < (if heavy { 300 } else { 180 }) {
+                    let us = with_rng(seed, |r| r.gen_range(1..200));
+                    std::thread::sleep(Duration::from_micros(us));
+                } else if r < (if heavy { 306 } else { 182 }) {
+                    let us = with_rng(seed, |r| r.gen_range(500..3000));
+                    std::thread::sleep(Duration::from_micros(us));
+                }
+            }
+            // "hold the thread that just executed ReadGap (non-zero) until another thread executes StoreDone"
+            "gapgate" => {
+                if id == "siqs.gap.store.nz" && g.holds.fetch_add(1, Ordering::SeqCst) < 6 {
+                    let d0 = g.done_store.load(Ordering::SeqCst);
+                    st[0].fetch_add(1, Ordering::Relaxed);
+                    if wait_until(|| g.done_store.load(Ordering::SeqCst) > d0, Duration::from_millis(300)) {
+                        st[1].fetch_add(1, Ordering::Relaxed);
+                        // let the other thread really perform its store
+                        std::thread::sleep(Duration::from_micros(300));
+                    }
+                }
+            }
+            // "hold a writer between two inserts until k readers have passed"
+            "wgate" => {
+                if id.ends_with(".w.lock") {
+                    let r: u32 = with_rng(seed, |r| r.gen_range(0..100));
+                    if r < 10 && g.holds.fetch_add(1, Ordering::SeqCst) < 40 {
+                        let r0 = g.rlen.load(Ordering::SeqCst);
+                        let k = 1 + (seed % 3) as usize;
+                        st[0].fetch_add(1, Ordering::Relaxed);
+                        if wait_until(|| g.rlen.load(Ordering::SeqCst) >= r0 + k, Duration::from_millis(3)) {
+                            st[1].fetch_add(1, Ordering::Relaxed);
+                        }
+                    }
+                }
+            }
+            // hold a worker between its completion checks and the start of its unit until another
+            // thread stores done (it then starts a unit although the sieve is over)
+            "taskgate" => {
+                if (id == "siqs.task.done" || id == "ecm.task.done" || id == "mpqs.target.load")
+                    && g.holds.fetch_add(1, Ordering::SeqCst) < 4
+                {
+                    let d0 = g.done_store.load(Ordering::SeqCst);
+                    st[0].fetch_add(1, Ordering::Relaxed);
+                    if wait_until(|| g.done_store.load(Ordering::SeqCst) > d0, Duration::from_millis(100)) {
+                        st[1].fetch_add(1, Ordering::Relaxed);
+                    }
+                }
+            }
+            _ => {}
+        }
+    })));
+    stats
+}
+
+/// Abort predicate that never aborts but logs every poll (so that the per-thread program order of
+/// the trace contains the polls) and counts as progress.
+pub fn logging_never_abort(polls: Arc<AtomicUsize>) -> Box<dyn Fn() -> bool + Sync> {
+    Box::new(move || {
+        let idx = polls.fetch_add(1, Ordering::SeqCst);
+        PROGRESS.fetch_add(1, Ordering::Relaxed);
+        yamaquasi::verif::ev(|| format!("\"op\":\"poll\",\"idx\":{},\"res\":false", idx));
+        false
+    })
+}
+
+// ------------------------------------------------------------------------------------------
+// the C04 plan
+// ------------------------------------------------------------------------------------------
+
+#[derive(Clone)]
+struct Variant {
+    key: &'static str, // part of the baseline key
+    use_double: Option<bool>,
+    large_factor: Option<u64>,
+    fb_size: Option<u32>,
+}
+
+fn prefs_of(v: &Variant, threads: Option<usize>) -> Preferences {
+    let mut p = Preferences::default();
+    p.verbosity = Verbosity::Silent;
+    p.threads = threads;
+    p.use_double = v.use_double;
+    p.large_factor = v.large_factor;
+    p.fb_size = v.fb_size;
+    p
+}
+
+pub fn run(args: &Args) -> i32 {
+    install_global_panic_hook();
+    let seed = arg_u64(args, "seed", 1);
+    let tier = arg_str(args, "tier", "quick").to_string();
+    let thorough = tier == "thorough";
+    let shard = arg_u64(args, "shard", 0) as usize;
+    let nshards = arg_u64(args, "nshards", 1) as usize;
+    let only = args.get("only").cloned();
+    let idle_s = arg_u64(args, "idle", 60) as f64;
+    let mut out = Out::create(arg_str(args, "out", "c04.ndjson"));
+    let mut pool = Pool::new(seed ^ 0xc04);
+    let mut rng = rng_for(seed, "c04-plan");
+
+    // inputs: small contended ones (finish within a few polynomials) up to 100 bits; 2 and 3 prime factors
+    let mut shapes: Vec<(&str, Vec<u32>)> = vec![
+        ("b48", vec![24, 24]),
+        ("b56", vec![28, 28]),
+        ("b64", vec![31, 33]),
+        ("b66", vec![33, 33]),
+        ("b72", vec![36, 36]),
+        ("b80", vec![40, 40]),
+        ("b90", vec![44, 46]),
+        ("b100", vec![50, 50]),
+        ("t72", vec![24, 24, 24]),
+        ("t96", vec![30, 32, 34]),
+        ("u70", vec![26, 44]),
+        ("u100", vec![36, 64]),
+    ];
+    if thorough {
+        shapes.extend(vec![("b52", vec![26, 26]), ("b60", vec![30, 30]), ("b86", vec![43, 43]), ("b96", vec![48, 48]),
+                           ("t100", vec![33, 33, 34]), ("q96", vec![24, 24, 24, 24])]);
+    }
+    let variants = [
+        Variant { key: "def", use_double: None, large_factor: None, fb_size: None },
+        Variant { key: "dbl", use_double: Some(true), large_factor: Some(40), fb_size: None },
+        Variant { key: "nolp", use_double: Some(false), large_factor: Some(1), fb_size: None },
+        Variant { key: "bigfb", use_double: Some(false), large_factor: None, fb_size: Some(400) },
+    ];
+    let selectors = ["Siqs", "Mpqs", "Qs", "Ecm", "Auto"];
+    let threads = [1usize, 2, 3, 4, 8, 16];
+    let perts_per = if thorough { 100 } else { 4 }; // per (input, selector): total >= 20 per (selector, threads) over inputs
+    let gate_kinds = ["rand", "rand", "gapgate", "wgate", "taskgate", "rand"];
+
+    let mut stop = false;
+    for (ii, (name, bits)) in shapes.iter().enumerate() {
+        // all shards generate the same inputs (same pool order); each handles its own inputs
+        let inp = make_input(&mut pool, &format!("{}-s{}", name, seed), bits);
+        let plan_seed: u64 = rng.gen();
+        if ii % nshards != shard || stop {
+            continue;
+        }
+        if let Some(o) = &only {
+            if *o != inp.id {
+                continue;
+            }
+        }
+        let mut prng = StdRng::seed_from_u64(plan_seed);
+        out.ev(input_event(&inp));
+        let mut runno = 0;
+        for sel in selectors {
+            let alg = algo_of(sel);
+            // sieve preference variants only matter for the sieves; Qs is slow above 80 bits
+            let vars: Vec<&Variant> = match sel {
+                "Siqs" => variants.iter().collect(),
+                "Mpqs" => variants[..3].iter().collect(),
+                "Qs" => variants[..2].iter().collect(),
+                _ => variants[..1].iter().collect(),
+            };
+            if sel == "Qs" && inp.n.bits() > 80 {
+                continue;
+            }
+            for v in vars {
+                if v.key == "bigfb" && inp.n.bits() > 80 {
+                    continue;
+                }
+                // baseline: no pool at all
+                let mut todo: Vec<(Option<usize>, Pert)> = vec![(None, Pert { kind: "none".into(), seed: 0 })];
+                for _ in 0..perts_per {
+                    let t = threads[prng.gen_range(0..threads.len())];
+                    let kind = gate_kinds[prng.gen_range(0..gate_kinds.len())];
+                    // gates are about the SIQS/MPQS/ECM flags; other selectors get random perturbation
+                    let kind = if (kind == "gapgate" && !(sel == "Siqs" || sel == "Auto")) || t == 1 { "rand" } else { kind };
+                    todo.push((Some(t), Pert { kind: kind.into(), seed: prng.gen::<u32>() as u64 }));
+                }
+                for (t, pert) in todo {
+                    runno += 1;
+                    let polls = Arc::new(AtomicUsize::new(0));
+                    let stats = install_pert(&pert);
+                    let vv = v.clone();
+                    let r = run_factor(inp.n, alg, move || {
+                        let mut prefs = prefs_of(&vv, t);
+                        prefs.should_abort = Some(logging_never_abort(polls));
+                        prefs
+                    }, idle_s);
+                    let mut evs = vec![];
+                    for e in &r.events {
+                        compact(e, &mut evs);
+                    }
+                    let mut e = json!({
+                        "op": "run", "case": inp.id, "run": format!("{}/{}/{}/t{}/{}{}#{}", inp.id, sel, v.key,
+                            t.map(|x| x as i64).unwrap_or(0), pert.kind, pert.seed, runno),
+                        "alg": sel, "variant": v.key, "threads": t.map(|x| x as i64).unwrap_or(0),
+                        "base": t.is_none(), "bkey": format!("{}/{}", sel, v.key),
+                        "pert": pert.kind, "pseed": pert.seed, "gate_holds": stats[0].load(Ordering::Relaxed),
+                        "gate_released": stats[1].load(Ordering::Relaxed),
+                        "raw_events": r.events.len(), "wall_ms": (r.wall_ms * 10.0).round() / 10.0,
+                        "n": dn(&inp.n), "n_dec": inp.n.to_string(), "evs": evs,
+                    });
+                    let of = outcome_fields(&r.outcome);
+                    for (k, v) in of.as_object().unwrap() {
+                        e[k] = v.clone();
+                    }
+                    out.ev(e);
+                    if r.hung {
+                        // the abandoned thread keeps writing into the process-wide sink: stop this process
+                        stop = true;
+                        break;
+                    }
+                }
+                if stop {
+                    break;
+                }
+            }
+            if stop {
+                break;
+            }
+        }
+    }
+    let _ = HashMap::<u8, u8>::new();
+    out.finish();
+    0
 }
